@@ -1,0 +1,31 @@
+//go:build verif
+// +build verif
+
+package xmpp
+
+import "net"
+
+// Verification hooks (build tag "verif"): observation / scheduling points used by the
+// conformance harness in /verif. They never change what the library does.
+const verifEnabled = true
+
+// VerifHook, when set, is called at every hook point. It may record the event and it may
+// block (the harness uses that to step goroutines in a chosen order).
+var VerifHook func(name string, kv ...interface{})
+
+// VerifConnWrapper, when set, wraps the TCP connection right after it was dialled
+// (fault injection on reads and writes).
+var VerifConnWrapper func(c net.Conn) net.Conn
+
+func vpoint(name string, kv ...interface{}) {
+	if h := VerifHook; h != nil {
+		h(name, kv...)
+	}
+}
+
+func verifWrapConn(c net.Conn) net.Conn {
+	if w := VerifConnWrapper; w != nil && c != nil {
+		return w(c)
+	}
+	return c
+}
